@@ -16,6 +16,13 @@ variable {V : Type}
 
 /-! ### Environments that agree outside `D1`/`D2` -/
 
+/-- `Option`-lifted relation: both defined and related, or both undefined. -/
+def ORel {α : Type} (r : α → α → Prop) : Option α → Option α → Prop
+  | some a, some b => r a b
+  | none, none => True
+  | _, _ => False
+
+
 def SlotsRel (D2 : Nat → Bool) : List (Slot V) → List (Slot V) → Prop
   | [], [] => True
   | a :: as, b :: bs => a.id = b.id ∧ (D2 a.id = true ∨ a.val = b.val) ∧ SlotsRel D2 as bs
@@ -27,9 +34,9 @@ def keep (D1 : Nat → Bool) : List (Slot V) → List (Slot V)
 
 def ScopeRel (D1 D2 : Nat → Bool) (a b : List (Slot V)) : Prop := SlotsRel D2 (keep D1 a) (keep D1 b)
 
-def EnvRel (D1 D2 : Nat → Bool) : List (List (Slot V)) → List (List (Slot V)) → Prop
+def EnvRel (D1 D2 : Nat → Bool) : List (Scope V) → List (Scope V) → Prop
   | [], [] => True
-  | a :: as, b :: bs => ScopeRel D1 D2 a b ∧ EnvRel D1 D2 as bs
+  | a :: as, b :: bs => a.tag = b.tag ∧ ScopeRel D1 D2 a.slots b.slots ∧ EnvRel D1 D2 as bs
   | _, _ => False
 
 theorem SlotsRel.refl (D2 : Nat → Bool) : ∀ l : List (Slot V), SlotsRel D2 l l
@@ -64,37 +71,52 @@ theorem findSlot_rel {D2 : Nat → Bool} {id : Nat} (h : D2 id = false) : ∀ (a
       · have hne : (x.id == id) = false := by simpa using hx
         simp [hne, ih]
 
-theorem lookup_rel {D1 D2 : Nat → Bool} (hd : ∀ l, D1 l = true → D2 l = true) {id : Nat} (h : D2 id = false) :
-    ∀ (a b : List (List (Slot V))), EnvRel D1 D2 a b → lookupEnv id a = lookupEnv id b
-  | [], [], _ => rfl
+/-- The scopes found for a tag are related (or there is none on either side). -/
+theorem findScope_rel {D1 D2 : Nat → Bool} (tg : Nat) :
+    ∀ (a b : List (Scope V)), EnvRel D1 D2 a b →
+      ORel (fun x y => ScopeRel D1 D2 x.slots y.slots) (findScope tg a) (findScope tg b)
+  | [], [], _ => by simp [findScope, ORel]
   | [], _ :: _, hr => by cases hr
   | _ :: _, [], hr => by cases hr
   | x :: xs, y :: ys, hr => by
-      obtain ⟨hs, hrest⟩ := hr
-      have h1 : D1 id = false := by
-        cases hc : D1 id with
-        | false => rfl
-        | true => rw [hd id hc] at h; cases h
-      have e : findSlot id x = findSlot id y := by
-        rw [← findSlot_keep h1 x, ← findSlot_keep h1 y]
-        exact findSlot_rel h _ _ hs
-      simp only [lookupEnv, e, lookup_rel hd h xs ys hrest]
+      obtain ⟨ht, hs, hrest⟩ := hr
+      simp only [findScope, ← ht]
+      split
+      · exact hs
+      · exact findScope_rel tg xs ys hrest
 
-theorem readAll_rel {D1 D2 : Nat → Bool} (hd : ∀ l, D1 l = true → D2 l = true) {a b : List (List (Slot V))}
+theorem lookup_rel {D1 D2 : Nat → Bool} (hd : ∀ l, D1 l = true → D2 l = true) {id : Nat} (h : D2 id = false)
+    (ds : Nat → Option Nat) (a b : List (Scope V)) (hr : EnvRel D1 D2 a b) :
+    lookupEnv ds id a = lookupEnv ds id b := by
+  have h1 : D1 id = false := by
+    cases hc : D1 id with
+    | false => rfl
+    | true => rw [hd id hc] at h; cases h
+  simp only [lookupEnv]
+  cases ds id with
+  | none => rfl
+  | some tg =>
+    have hf := findScope_rel tg a b hr
+    cases ea : findScope tg a with
+    | none => cases eb : findScope tg b <;> simp only [ea, eb, ORel] at hf ⊢
+    | some sa =>
+      cases eb : findScope tg b with
+      | none => simp only [ea, eb, ORel] at hf
+      | some sb =>
+        simp only [ea, eb, ORel] at hf ⊢
+        rw [← findSlot_keep h1 sa.slots, ← findSlot_keep h1 sb.slots]
+        exact findSlot_rel h _ _ hf
+
+theorem readAll_rel {D1 D2 : Nat → Bool} (hd : ∀ l, D1 l = true → D2 l = true) (ds : Nat → Option Nat)
+    {a b : List (Scope V)}
     (hr : EnvRel D1 D2 a b) : ∀ ids : List (Option Nat), (∀ id, some id ∈ ids → D2 id = false) →
-    readAll a ids = readAll b ids
+    readAll ds a ids = readAll ds b ids
   | [], _ => rfl
   | none :: _, _ => rfl
   | some id :: ids, h => by
-      have e1 := lookup_rel hd (h id (by simp)) a b hr
-      have e2 := readAll_rel hd hr ids (fun i hi => h i (List.mem_cons_of_mem _ hi))
+      have e1 := lookup_rel hd (h id (by simp)) ds a b hr
+      have e2 := readAll_rel hd ds hr ids (fun i hi => h i (List.mem_cons_of_mem _ hi))
       simp only [readAll, e1, e2]
-
-/-- `Option`-lifted relation: both defined and related, or both undefined. -/
-def ORel {α : Type} (r : α → α → Prop) : Option α → Option α → Prop
-  | some a, some b => r a b
-  | none, none => True
-  | _, _ => False
 
 theorem setSlot_rel {D2 : Nat → Bool} {id : Nat} {v1 v2 : V} (hv : D2 id = true ∨ v1 = v2) :
     ∀ (a b : List (Slot V)), SlotsRel D2 a b → ORel (SlotsRel D2) (setSlot id v1 a) (setSlot id v2 b)
@@ -132,22 +154,31 @@ theorem setSlot_keep {D1 : Nat → Bool} {id : Nat} {v : V} (h : D1 id = false) 
           rw [← ih]
           cases setSlot id v ss <;> simp [keep, hc]
 
-theorem assign_rel {D1 D2 : Nat → Bool} {id : Nat} {v1 v2 : V} (h1 : D1 id = false) (hv : D2 id = true ∨ v1 = v2) :
-    ∀ (a b : List (List (Slot V))), EnvRel D1 D2 a b →
-    ORel (EnvRel D1 D2) (assignEnv id v1 a) (assignEnv id v2 b)
-  | [], [], _ => by simp [assignEnv, ORel]
+theorem setIn_rel {D1 D2 : Nat → Bool} {tg id : Nat} {v1 v2 : V} (h1 : D1 id = false) (hv : D2 id = true ∨ v1 = v2) :
+    ∀ (a b : List (Scope V)), EnvRel D1 D2 a b →
+    ORel (EnvRel D1 D2) (setIn tg id v1 a) (setIn tg id v2 b)
+  | [], [], _ => by simp [setIn, ORel]
   | [], _ :: _, hr => by cases hr
   | _ :: _, [], hr => by cases hr
   | x :: xs, y :: ys, hr => by
-      obtain ⟨hs, hrest⟩ := hr
-      have ih := assign_rel h1 hv xs ys hrest
+      obtain ⟨ht, hs, hrest⟩ := hr
+      have ih := setIn_rel (tg := tg) h1 hv xs ys hrest
       have hk := setSlot_rel hv _ _ hs
-      rw [← setSlot_keep h1 x, ← setSlot_keep h1 y] at hk
-      simp only [assignEnv]
-      cases e1 : setSlot id v1 x <;> cases e2 : setSlot id v2 y <;> simp [e1, e2, ORel] at hk ⊢
-      · cases f1 : assignEnv id v1 xs <;> cases f2 : assignEnv id v2 ys <;> simp [f1, f2, ORel] at ih ⊢
-        exact ⟨hs, ih⟩
-      · exact ⟨hk, hrest⟩
+      rw [← setSlot_keep h1 x.slots, ← setSlot_keep h1 y.slots] at hk
+      simp only [setIn, ← ht]
+      split
+      · cases e1 : setSlot id v1 x.slots <;> cases e2 : setSlot id v2 y.slots <;> simp [e1, e2, ORel] at hk ⊢
+        exact ⟨rfl, hk, hrest⟩
+      · cases f1 : setIn tg id v1 xs <;> cases f2 : setIn tg id v2 ys <;> simp [f1, f2, ORel] at ih ⊢
+        exact ⟨ht, hs, ih⟩
+
+theorem assign_rel {D1 D2 : Nat → Bool} {id : Nat} {v1 v2 : V} (h1 : D1 id = false) (hv : D2 id = true ∨ v1 = v2)
+    (ds : Nat → Option Nat) (a b : List (Scope V)) (hr : EnvRel D1 D2 a b) :
+    ORel (EnvRel D1 D2) (assignEnv ds id v1 a) (assignEnv ds id v2 b) := by
+  simp only [assignEnv]
+  cases ds id with
+  | none => simp [ORel]
+  | some tg => exact setIn_rel h1 hv a b hr
 
 theorem keep_setSlot_dead {D1 : Nat → Bool} {id : Nat} {v : V} (h1 : D1 id = true) :
     ∀ (b b' : List (Slot V)), setSlot id v b = some b' → keep D1 b' = keep D1 b
@@ -201,36 +232,45 @@ theorem setSlot_plain {D1 D2 : Nat → Bool} {id : Nat} {v : V} (h2 : D2 id = tr
     simp only [Option.map_some] at hk
     exact slotsRel_setSlot_plain h2 _ _ _ hr hk.symm
 
-theorem assign_plain {D1 D2 : Nat → Bool} {id : Nat} {v : V} (h2 : D2 id = true) :
-    ∀ (a b b' : List (List (Slot V))), EnvRel D1 D2 a b → assignEnv id v b = some b' → EnvRel D1 D2 a b'
-  | [], [], _, _, h => by simp [assignEnv] at h
+theorem setIn_plain {D1 D2 : Nat → Bool} {tg id : Nat} {v : V} (h2 : D2 id = true) :
+    ∀ (a b b' : List (Scope V)), EnvRel D1 D2 a b → setIn tg id v b = some b' → EnvRel D1 D2 a b'
+  | [], [], _, _, h => by simp [setIn] at h
   | [], _ :: _, _, hr, _ => by cases hr
   | _ :: _, [], _, hr, _ => by cases hr
   | x :: xs, y :: ys, b', hr, h => by
-      obtain ⟨hs, hrest⟩ := hr
-      simp only [assignEnv] at h
-      cases e : setSlot id v y with
-      | some y' =>
-        simp only [e, Option.some.injEq] at h
-        subst h
-        exact ⟨setSlot_plain h2 x y y' hs e, hrest⟩
-      | none =>
-        simp only [e] at h
-        cases f : assignEnv id v ys with
+      obtain ⟨ht, hs, hrest⟩ := hr
+      simp only [setIn] at h
+      split at h
+      · cases e : setSlot id v y.slots with
+        | none => simp [e] at h
+        | some y' =>
+          simp only [e, Option.map_some, Option.some.injEq] at h
+          subst h
+          exact ⟨ht, setSlot_plain h2 x.slots y.slots y' hs e, hrest⟩
+      · cases f : setIn tg id v ys with
         | none => simp [f] at h
         | some t =>
           simp only [f, Option.map_some, Option.some.injEq] at h
           subst h
-          exact ⟨hs, assign_plain h2 xs ys t hrest f⟩
+          exact ⟨ht, hs, setIn_plain h2 xs ys t hrest f⟩
+
+theorem assign_plain {D1 D2 : Nat → Bool} {id : Nat} {v : V} (h2 : D2 id = true) (ds : Nat → Option Nat)
+    (a b b' : List (Scope V)) (hr : EnvRel D1 D2 a b) (h : assignEnv ds id v b = some b') : EnvRel D1 D2 a b' := by
+  simp only [assignEnv] at h
+  cases hd : ds id with
+  | none => simp [hd] at h
+  | some tg =>
+    simp only [hd] at h
+    exact setIn_plain h2 a b b' hr h
 
 theorem define_rel {D1 D2 : Nat → Bool} {id : Nat} {v : V} :
-    ∀ (a b : List (List (Slot V))), EnvRel D1 D2 a b → EnvRel D1 D2 (defineEnv id v a) (defineEnv id v b)
+    ∀ (a b : List (Scope V)), EnvRel D1 D2 a b → EnvRel D1 D2 (defineEnv id v a) (defineEnv id v b)
   | [], [], _ => trivial
   | [], _ :: _, hr => by cases hr
   | _ :: _, [], hr => by cases hr
   | x :: xs, y :: ys, hr => by
-      obtain ⟨hs, hrest⟩ := hr
-      refine ⟨?_, hrest⟩
+      obtain ⟨ht, hs, hrest⟩ := hr
+      refine ⟨ht, ?_, hrest⟩
       simp only [ScopeRel, keep]
       cases hc : D1 id
       · simp only [Bool.false_eq_true, ↓reduceIte]
@@ -240,26 +280,26 @@ theorem define_rel {D1 D2 : Nat → Bool} {id : Nat} {v : V} :
 
 /-- A declaration only the plain run performs, of a local whose slot may be missing. -/
 theorem define_plain {D1 D2 : Nat → Bool} {id : Nat} {v : V} (h1 : D1 id = true) :
-    ∀ (a b : List (List (Slot V))), EnvRel D1 D2 a b → EnvRel D1 D2 a (defineEnv id v b)
+    ∀ (a b : List (Scope V)), EnvRel D1 D2 a b → EnvRel D1 D2 a (defineEnv id v b)
   | [], [], _ => trivial
   | [], _ :: _, hr => by cases hr
   | _ :: _, [], hr => by cases hr
   | x :: xs, y :: ys, hr => by
-      obtain ⟨hs, hrest⟩ := hr
-      refine ⟨?_, hrest⟩
+      obtain ⟨ht, hs, hrest⟩ := hr
+      refine ⟨ht, ?_, hrest⟩
       simp only [ScopeRel, keep, h1, ↓reduceIte]
       exact hs
 
-theorem EnvRel.drop {D1 D2 : Nat → Bool} : ∀ {a b : List (List (Slot V))}, EnvRel D1 D2 a b →
+theorem EnvRel.drop {D1 D2 : Nat → Bool} : ∀ {a b : List (Scope V)}, EnvRel D1 D2 a b →
     EnvRel D1 D2 (a.drop 1) (b.drop 1)
   | [], [], _ => trivial
   | [], _ :: _, hr => by cases hr
   | _ :: _, [], hr => by cases hr
-  | _ :: _, _ :: _, hr => hr.2
+  | _ :: _, _ :: _, hr => hr.2.2
 
-theorem EnvRel.push {D1 D2 : Nat → Bool} {a b : List (List (Slot V))} (sc : List (Slot V))
+theorem EnvRel.push {D1 D2 : Nat → Bool} {a b : List (Scope V)} (sc : Scope V)
     (h : EnvRel D1 D2 a b) : EnvRel D1 D2 (sc :: a) (sc :: b) :=
-  ⟨SlotsRel.refl D2 _, h⟩
+  ⟨rfl, SlotsRel.refl D2 _, h⟩
 
 
 /-! ### Syntactic side conditions -/
